@@ -212,14 +212,52 @@ func membershipFromEngine(m ssa.Value) (bool, string) {
 			for _, st := range core.CellStores(x) {
 				return walk(st.Val)
 			}
+		case *ssa.Parameter:
+			// a helper that is handed the Result: every live call hands over an engine result
+			fn := x.Parent()
+			idx := -1
+			for i, q := range fn.Params {
+				if q == x {
+					idx = i
+				}
+			}
+			if membershipProg == nil || idx < 0 || (fn.Object() != nil && fn.Object().Exported()) {
+				return false, "Result is a parameter " + x.Name()
+			}
+			kg := membershipProg.KG()
+			live, _ := kg.Live()
+			n, desc := 0, ""
+			for _, e := range kg.In[fn] {
+				if !live[e.Caller] {
+					continue
+				}
+				ci, isCall := e.Site.(ssa.CallInstruction)
+				if e.Kind != "static" || !isCall || idx >= len(ci.Common().Args) {
+					return false, "Result is a parameter of a function that is not only called directly"
+				}
+				ok, d := walk(ci.Common().Args[idx])
+				if !ok {
+					return false, "parameter " + x.Name() + " <- " + d
+				}
+				n++
+				desc = d
+			}
+			if n == 0 {
+				return false, "Result is a parameter of a function without callers"
+			}
+			return true, desc + " (through parameter " + x.Name() + ")"
 		}
 		return false, "Result of unrecognised origin " + v.String()
 	}
 	return walk(res)
 }
 
+// membershipProg gives membershipFromEngine access to the call graph (set by runC08).
+var membershipProg *core.Program
+
 func runC08(c *Ctx) {
 	p, r := c.P, c.R
+	membershipProg = p
 	ri, err := p.ResultInfo(checkgroupPkg)
 	if err != nil {
 		r.Undecide("R08.2", "", "anchor checkgroup.Result", "", err.Error())
@@ -580,10 +618,11 @@ func r084(c *Ctx, ri *core.ResultInfo) {
 			}
 			n++
 			idxIter, idxPart := rangeOf(ia.Index)
-			// the Allowed field of the stored struct
+			// the Allowed field of the stored struct: everything it is computed from (through
+			// helpers) that is an element of a ranged-over slice is this iteration's result
 			alloc, _ := st.Val.(*ssa.Alloc)
-			var memIter ssa.Value
-			memPart := ""
+			nAllowedStores := 0
+			ok2 := idxIter != nil && idxPart == "key"
 			if alloc != nil && alloc.Referrers() != nil {
 				for _, ref := range *alloc.Referrers() {
 					fa, ok := ref.(*ssa.FieldAddr)
@@ -591,36 +630,26 @@ func r084(c *Ctx, ri *core.ResultInfo) {
 						continue
 					}
 					for _, r2 := range *fa.Referrers() {
-						if s2, ok := r2.(*ssa.Store); ok {
-							if bo, ok := s2.Val.(*ssa.BinOp); ok {
-								var res ssa.Value
-								_, cmpX, _, _ := core.BinCmp(bo)
-								if cmpX == nil {
-									cmpX = bo.X
-								}
-								switch m := cmpX.(type) {
-								case *ssa.Field:
-									res = m.X
-								case *ssa.UnOp:
-									if f2, ok := m.X.(*ssa.FieldAddr); ok {
-										res = f2.X
-									}
-								}
-								memIter, memPart = rangeOf(res)
-								if memIter == nil {
-									// address-taken range variable: *alloc = extract
-									if a2, ok := core.ValueOrigin(res).(*ssa.Alloc); ok {
-										for _, cs := range core.CellStores(a2) {
-											memIter, memPart = rangeOf(cs.Val)
-										}
-									}
-								}
+						s2, ok := r2.(*ssa.Store)
+						if !ok || s2.Addr != ssa.Value(fa) {
+							continue
+						}
+						nAllowedStores++
+						srcs, fixed := iterSources(s2.Val)
+						if len(srcs) == 0 || fixed {
+							ok2 = false
+						}
+						for it := range srcs {
+							if it != idxIter {
+								ok2 = false
 							}
 						}
 					}
 				}
 			}
-			ok2 := idxIter != nil && memIter == idxIter && idxPart == "key" && memPart == "value"
+			if nAllowedStores == 0 {
+				ok2 = false
+			}
 			r.Check(ok2, "R08.4", hn, "responses[i] from results[i]", p.Pos(st.Pos()),
 				"response slot i is built from engine result i of the same range iteration",
 				"a batch response slot is not built from the engine result of the same index")
@@ -825,11 +854,9 @@ func iterSources(v ssa.Value) (srcs map[ssa.Value]bool, fixed bool) {
 								fixed = true
 								return
 							}
-						} else if it, part := rangeOf(x); it != nil && part == "value" {
-							if _, isPar := core.ValueOrigin(a.X).(*ssa.Parameter); isPar {
-								srcs[it] = true
-								return
-							}
+						} else if it, part := rangeOf(x); it != nil && part == "value" && loopCounter(a.Index) {
+							srcs[it] = true
+							return
 						}
 					}
 					walk(a.X, stack, depth+1)
